@@ -3,6 +3,7 @@ package cache
 import (
 	"fmt"
 	"slices"
+	"strings"
 	"sync"
 	"sync/atomic"
 	"time"
@@ -59,6 +60,13 @@ func (m *Manager) Release(name string) {
 	m.mu.Lock()
 	defer m.mu.Unlock()
 	delete(m.sharedCaches, name)
+	// A shard releases its caches by its file name, the index caches of the
+	// shard are named <file name>/<bucket name>.
+	for cacheName := range m.sharedCaches {
+		if strings.HasPrefix(cacheName, name+"/") {
+			delete(m.sharedCaches, cacheName)
+		}
+	}
 	log.Debug().Str("name", name).Int("numCaches", len(m.sharedCaches)).Msg("Released cache")
 }
 
